@@ -391,6 +391,65 @@ def run_deepcopy(prog, ctx=None):
             ok = p in dup
             res.ob("%s:field %s" % (kind, p), ok, init, copies[0].get("l", 0),
                    "" if ok else "mpt_%s_fini() frees %s but mpt_%s_init() copies the struct without duplicating it (two objects own one string)" % (kind, p, kind))
+            if not ok:
+                continue
+            # on every way from the whole-struct copy to the return: the field is duplicated, or the source's field was tested null
+            dup_blocks, copy_blocks = set(), set()
+            for bid, blk in init.blocks.items():
+                for e in blk.el:
+                    for n in walk(e):
+                        if n.get("k") == "bin" and n.get("op") == "=":
+                            l = strip(n["a"], lvalue_to_rvalue=False)
+                            if l.get("k") == "mem":
+                                q, root = mem_path(l)
+                                if q == p and isinstance(root, dict) and root.get("k") == "ref" and root["d"].get("id") == init.params[0]["id"] \
+                                        and any(c.get("k") == "call" for c in walk(n["b"])):
+                                    dup_blocks.add(bid)
+                            if any(n is c for c in copies):
+                                copy_blocks.add(bid)
+
+            def null_edge(blk):
+                """index of the successor taken when the source's field p is null, if the block tests exactly that"""
+                t = blk.term
+                if not (t and isinstance(t.get("cond"), dict) and len(blk.succ) == 2):
+                    return None
+                c = strip(t["cond"], all_casts=True)
+                neg = False
+                while c.get("k") == "un" and c.get("op") == "!":
+                    neg = not neg
+                    c = strip(c["e"], all_casts=True)
+                if c.get("k") == "bin" and c.get("op") in ("!=", "==") and cval(c["b"]) == 0:
+                    if c["op"] == "==":
+                        neg = not neg
+                    c = strip(c["a"], all_casts=True)
+                if c.get("k") != "mem":
+                    return None
+                q, root = mem_path(c)
+                if q != p or not (isinstance(root, dict) and root.get("k") == "ref" and root["d"].get("dk") == "param"):
+                    return None       # the source's member, or the copy's (equal after the whole-struct copy)
+                return 0 if neg else 1
+            leak = None
+            seen = set()
+            stack = [(c, True) for c in copy_blocks]
+            while stack and leak is None:
+                bid, first = stack.pop()
+                if bid in seen:
+                    continue
+                seen.add(bid)
+                blk = init.blocks[bid]
+                if bid in dup_blocks:
+                    continue
+                if bid == init.exit or any(e.get("k") == "ret" for e in blk.el) or not [x for x in blk.succ if x is not None]:
+                    leak = bid
+                    break
+                ne = null_edge(blk)
+                for k, sx in enumerate(blk.succ):
+                    if sx is None or k == ne:
+                        continue
+                    stack.append((sx, False))
+            ok2 = leak is None
+            res.ob("%s:field %s:every-path" % (kind, p), ok2, init, copies[0].get("l", 0),
+                   "" if ok2 else "mpt_%s_init(): after the whole-struct copy a path reaches the return with %s neither duplicated nor tested null in the source: copy and source own one string on that path" % (kind, p))
         if not freed:
             res.ob("%s:no-owned-pointers" % kind, True, init, init.line)
     return res
